@@ -13,6 +13,7 @@ import (
 	"strings"
 
 	"cosmossdk.io/core/store"
+	errorsmod "cosmossdk.io/errors"
 	"cosmossdk.io/log"
 	"cosmossdk.io/math"
 	sdkstore "cosmossdk.io/store"
@@ -24,6 +25,7 @@ import (
 	codectypes "github.com/cosmos/cosmos-sdk/codec/types"
 	"github.com/cosmos/cosmos-sdk/runtime"
 	sdk "github.com/cosmos/cosmos-sdk/types"
+	sdkerrors "github.com/cosmos/cosmos-sdk/types/errors"
 	authtypes "github.com/cosmos/cosmos-sdk/x/auth/types"
 
 	"github.com/circlefin/noble-cctp/x/cctp/keeper"
@@ -57,6 +59,7 @@ type World struct {
 
 	mintingDenom string
 	faults       []bool
+	faultSeq     int // which registered error type the next injected failure carries
 	deps         []string
 	writes       []write
 }
@@ -91,6 +94,23 @@ func (s recStore) Delete(k []byte) error {
 
 type fakeBank struct{ w *World }
 type fakeFTF struct{ w *World }
+
+// typedFault: an injected dependency failure carries, in turn, each of the registered error types the real bank and
+// fiat-token-factory return (and a bare error): a handler must treat them all alike -- as a failure.
+func (w *World) typedFault(which string) error {
+	w.faultSeq++
+	pools := map[string][]error{
+		"bank": {sdkerrors.ErrInsufficientFunds, sdkerrors.ErrInvalidCoins, sdkerrors.ErrUnauthorized, sdkerrors.ErrInvalidAddress, nil},
+		"burn": {ftftypes.ErrBurn, ftftypes.ErrUnauthorized, ftftypes.ErrPaused, ftftypes.ErrInvalidCoins, ftftypes.ErrUserNotFound, nil},
+		"mint": {ftftypes.ErrMint, ftftypes.ErrUnauthorized, ftftypes.ErrPaused, ftftypes.ErrSendCoinsToAccount, ftftypes.ErrUserNotFound, ftftypes.ErrInvalidCoins, nil},
+	}
+	p := pools[which]
+	e := p[w.faultSeq%len(p)]
+	if e == nil {
+		return fmt.Errorf("injected %s failure", which)
+	}
+	return errorsmod.Wrapf(e, "injected %s failure", which)
+}
 
 func (w *World) popFault() bool {
 	if len(w.faults) == 0 {
@@ -165,16 +185,16 @@ func (b fakeBank) SendCoinsFromAccountToModule(ctx context.Context, sender sdk.A
 		w.deps = append(w.deps, fmt.Sprintf("Transfer{x%x,x%x,%s}=%s", []byte(sender), []byte(module), strings.Join(parts, ","), okStr(err)))
 	}()
 	if w.popFault() {
-		return fmt.Errorf("injected bank failure")
+		return w.typedFault("bank")
 	}
 	modAddr := authtypes.NewModuleAddress(module)
 	for _, c := range amt {
 		if c.Amount.IsNil() || !c.Amount.IsPositive() {
-			return fmt.Errorf("invalid coins")
+			return errorsmod.Wrap(sdkerrors.ErrInvalidCoins, "invalid coins")
 		}
 		bal := w.ledgerGet(ctx, balKey(sender, c.Denom))
 		if bal.LT(c.Amount) {
-			return fmt.Errorf("insufficient funds")
+			return errorsmod.Wrapf(sdkerrors.ErrInsufficientFunds, "spendable balance is smaller than %s", c)
 		}
 	}
 	for _, c := range amt {
@@ -194,20 +214,20 @@ func (f fakeFTF) Burn(ctx sdk.Context, msg *ftftypes.MsgBurn) (resp *ftftypes.Ms
 		w.deps = append(w.deps, fmt.Sprintf("Burn{x%x,x%x,%s}=%s", []byte(msg.From), []byte(msg.Amount.Denom), intStr(msg.Amount.Amount), okStr(err)))
 	}()
 	if w.popFault() {
-		return nil, fmt.Errorf("injected burn failure")
+		return nil, w.typedFault("burn")
 	}
 	if msg.From != types.ModuleAddress.String() {
-		return nil, fmt.Errorf("not a minter")
+		return nil, errorsmod.Wrap(ftftypes.ErrUnauthorized, "you are not a minter")
 	}
 	if msg.Amount.Denom != w.mintingDenom {
-		return nil, fmt.Errorf("burning denom is incorrect")
+		return nil, errorsmod.Wrap(ftftypes.ErrBurn, "burning denom is incorrect")
 	}
 	if msg.Amount.Amount.IsNil() || !msg.Amount.Amount.IsPositive() {
-		return nil, fmt.Errorf("burning amount is invalid")
+		return nil, errorsmod.Wrap(ftftypes.ErrBurn, "burning amount is invalid")
 	}
 	bal := w.ledgerGet(ctx, balKey(types.ModuleAddress, msg.Amount.Denom))
 	if bal.LT(msg.Amount.Amount) {
-		return nil, fmt.Errorf("insufficient funds")
+		return nil, errorsmod.Wrap(ftftypes.ErrBurn, "insufficient funds")
 	}
 	w.ledgerSet(ctx, balKey(types.ModuleAddress, msg.Amount.Denom), bal.Sub(msg.Amount.Amount))
 	w.ledgerSet(ctx, supKey(msg.Amount.Denom), w.ledgerGet(ctx, supKey(msg.Amount.Denom)).Sub(msg.Amount.Amount))
@@ -220,20 +240,20 @@ func (f fakeFTF) Mint(ctx sdk.Context, msg *ftftypes.MsgMint) (resp *ftftypes.Ms
 		w.deps = append(w.deps, fmt.Sprintf("Mint{x%x,x%x,x%x,%s}=%s", []byte(msg.From), []byte(msg.Address), []byte(msg.Amount.Denom), intStr(msg.Amount.Amount), okStr(err)))
 	}()
 	if w.popFault() {
-		return nil, fmt.Errorf("injected mint failure")
+		return nil, w.typedFault("mint")
 	}
 	if msg.From != types.ModuleAddress.String() {
-		return nil, fmt.Errorf("not a minter")
+		return nil, errorsmod.Wrap(ftftypes.ErrUnauthorized, "you are not a minter")
 	}
 	to, aerr := sdk.AccAddressFromBech32(msg.Address)
 	if aerr != nil {
 		return nil, aerr
 	}
 	if msg.Amount.Denom != w.mintingDenom {
-		return nil, fmt.Errorf("minting denom is incorrect")
+		return nil, errorsmod.Wrap(ftftypes.ErrMint, "minting denom is incorrect")
 	}
 	if msg.Amount.Amount.IsNil() || !msg.Amount.Amount.IsPositive() {
-		return nil, fmt.Errorf("minting amount is invalid")
+		return nil, errorsmod.Wrap(ftftypes.ErrMint, "minting amount is invalid")
 	}
 	w.ledgerSet(ctx, balKey(to, msg.Amount.Denom), w.ledgerGet(ctx, balKey(to, msg.Amount.Denom)).Add(msg.Amount.Amount))
 	w.ledgerSet(ctx, supKey(msg.Amount.Denom), w.ledgerGet(ctx, supKey(msg.Amount.Denom)).Add(msg.Amount.Amount))
